@@ -140,7 +140,7 @@ def crosscheck_interpreter(max_lines: int = 1500, timeout: float = 900.0) -> dic
     return out
 
 
-def run_driver(lines: list[str], timeout: float = 600.0) -> list[str]:
+def run_driver(lines: list[str], timeout: float = 2400.0) -> list[str]:
     """Feed operation lines to a fresh model driver process; one answer line per operation."""
     if not lines:
         return []
